@@ -692,6 +692,8 @@ impl<'a> Model<'a> {
             // |xxxxx| range we are studying [min, max]
             // |*****| range we are deleting [column_start, column_end]
             // we are going to split it in three big cases:
+            // (a deletion starting exactly at `min` belongs to cases B/C: it removes the
+            // head of the range, or all of it)
             // ----------------|xxxxxxxx|-----------------
             // -----|*****|------------------------------- Case A
             // -------|**********|------------------------ Case B
@@ -699,7 +701,7 @@ impl<'a> Model<'a> {
             // ------------------|****|------------------- Case D
             // ---------------------|**********|---------- Case E
             // -----------------------------|*****|------- Case F
-            if column_start < min {
+            if column_start <= min {
                 if column_end < min {
                     // Case A
                     // We displace all columns
